@@ -29,7 +29,7 @@ REQUIRED = ["kind.dynamic", "kind.static", "kind.lanelet", "kind.network", "kind
             "op.network.translate_rotate", "op.add_lanelet", "op.remove_lanelet", "op.scenario.translate_rotate",
             "op.cycle_elements=", "op.element-edit", "op.time_offset=", "history-model-checked",
             "op.add_lanelet-deferred", "op.remove_lanelet-deferred", "op.lanelet.translate_rotate",
-            "network.built-without-index"]
+            "network.built-without-index", "op.merge.disjoint", "op.merge.new-then-duplicate", "op.merge.duplicate-first"]
 EXHAUSTIVE = {"quick": "per object kind: all mutator sequences of length <= 2 (each step followed by the full query battery)",
               "thorough": "per object kind: all mutator sequences of length <= 3"}
 ASSUMPTIONS = ["direct assignment to vertices or shape parameters is not in the statement's mutator list",
@@ -276,6 +276,9 @@ def run(ctx):
     NET_OPS = ["network.translate_rotate", "add_lanelet", "remove_lanelet", "scenario.translate_rotate",
                "add_lanelet-deferred", "remove_lanelet-deferred", "lanelet.translate_rotate"]
 
+    # bulk addition of another network's lanelets (a duplicate id is rejected with a warning; what was accepted counts)
+    MERGE_OPS = ["merge.disjoint", "merge.new-then-duplicate", "merge.duplicate-first"]
+
     def run_net(rng, ops, in_scenario, deferred_build=False):
         lanelets, _ = lattice.gen_lanelets(rng, nmax=4)
         if deferred_build and not in_scenario:
@@ -327,6 +330,24 @@ def run(ctx):
                     # the deferred operation is completed by the next indexing operation (documented batch usage)
                     nid += 1
                     net.add_lanelet(lattice.lanelet(nid, lattice.strip(rng, 70.0 + nid, 70.0, 2, 2.0, 2.0, wobble=False)))
+                elif op in MERGE_OPS:
+                    if sc is not None:
+                        continue  # (network-level bulk addition would bypass the scenario's id registry)
+                    nid += 2
+                    fresh_ = [lattice.lanelet(nid - k, lattice.strip(rng, lattice.q(rng, -5, 5), lattice.q(rng, -5, 5), 3, 2.0,
+                                                                     3.0)) for k in (0, 1)]
+                    old_ = net.lanelets[0]
+                    dup = Lanelet(old_.left_vertices.copy(), old_.center_vertices.copy(), old_.right_vertices.copy(),
+                                  old_.lanelet_id)
+                    order = {"merge.disjoint": fresh_, "merge.new-then-duplicate": [fresh_[0], dup, fresh_[1]],
+                             "merge.duplicate-first": [dup] + fresh_}[op]
+                    other = LaneletNetwork()
+                    for la_ in order:
+                        other.add_lanelet(la_)
+                    ret = net.add_lanelets_from_network(other)
+                    if ret != (op == "merge.disjoint"):
+                        ctx.violation("C11/network/%s/unexpected-return" % op, repr(ret), {"ops": done + [op]})
+                        return
                 elif op == "add_lanelet":
                     nid += 1
                     new = lattice.lanelet(nid, lattice.strip(rng, lattice.q(rng, -5, 5), lattice.q(rng, -5, 5), 3, 2.0, 3.0))
@@ -409,7 +430,7 @@ def run(ctx):
     # =========================================================================================================
     depth = ctx.pick(2, 3)
     plans = []
-    for kind, ops in (("dynamic", DYN_OPS), ("network", NET_OPS[:3]), ("scenario", NET_OPS[:4]), ("cycle", CYC_OPS)):
+    for kind, ops in (("dynamic", DYN_OPS), ("network", NET_OPS[:3] + MERGE_OPS), ("scenario", NET_OPS[:4]), ("cycle", CYC_OPS)):
         for d in range(1, depth + 1):
             for seq in itertools.product(ops, repeat=d):
                 plans.append((kind, list(seq)))
@@ -434,7 +455,7 @@ def run(ctx):
             seq = [rng.choice(DYN_OPS) for _ in range(L)]
             run_dynamic(rng, seq, "rnd")
         elif kind in ("network", "scenario"):
-            seq = [rng.choice(NET_OPS[:6] if i % 4 else NET_OPS) for _ in range(L)]
+            seq = [rng.choice((NET_OPS[:6] if i % 4 else NET_OPS) + MERGE_OPS) for _ in range(L)]
             run_net(rng, seq, kind == "scenario", deferred_build=(i % 3 == 1))
         elif kind == "cycle":
             seq = [rng.choice(CYC_OPS) for _ in range(L)]
